@@ -119,6 +119,9 @@ func (e *Engine) globalSlot(g *ssa.Global) *Value {
 		case types.Identical(elem, types.Universe.Lookup("error").Type()):
 			// sentinel errors (io.EOF, strconv.ErrSyntax, ...): one distinct error each
 			*s = e.newError(mkStr(g.String()))
+		case g.String() == "crypto/rand.Reader":
+			// the system's random source: an opaque reader (whoever reads from it is modelled)
+			*s = IfaceVal{typ: e.sh.marks.opaque, val: PtrVal{new(Value)}}
 		case g.String() == "unicode.properties":
 			// the Latin-1 property table, rebuilt from the exported predicates
 			av := zero(elem).(*ArrayVal)
